@@ -8,6 +8,7 @@ import (
 	"errors"
 	"fmt"
 	"io"
+	"slices"
 	"sort"
 
 	"github.com/c2FmZQ/ech"
@@ -27,6 +28,8 @@ type step struct {
 	expect []byte // bytes the receiver must get
 	// rewritten: input ranges [a,b) (relative to data) whose output is only defined once complete (hello records)
 	rewritten [][2]int
+	// rewrittenOut: output length of the (single) rewritten range when it is not one record (hello spanning several records)
+	rewrittenOut int
 }
 
 type scenario struct {
@@ -104,7 +107,30 @@ func buildScenarios(key echx.KeyPair) []scenario {
 		Exts: []tlsref.Ext{tlsref.SNI("plain.example.org"), tlsref.SupportedVersions(0x0304), tlsref.ALPN("h2")}}
 	plainRec := plain.Record()
 
+	// hellos spanning several records
+	msg1 := b1.Outer.Msg()
+	ch1frag := tlsref.Fragment(0x0301, msg1, 3, 150)
+	bigSpec := mkSpec(32)
+	bigSpec.EncInner = append(slices.Clone(bigSpec.EncInner), tlsref.Opaque(0x7a7a, 17000))
+	bigSpec.EphLabel = "c07-big"
+	bb := bigSpec.Build()
+	chBig := tlsref.FragmentMax(0x0301, bb.Outer.Msg())
+	inBig := tlsref.FragmentMax(0x0303, bb.Expected.Msg())
+	plainFrag := tlsref.Fragment(0x0301, plain.Msg(), 2, 60)
 	return []scenario{
+		{"accepted-fragmented-hello", keys, []step{
+			{dir: 'c', data: cat(ch1frag, clientTailNoAppFirst), expect: cat(in1, clientTailNoAppFirst), rewritten: [][2]int{{0, len(ch1frag)}}},
+			{dir: 'b', data: serverFlight, expect: serverFlight},
+			{dir: 'c', data: clientTail, expect: clientTail},
+		}},
+		{"accepted-big-hello", keys, []step{
+			{dir: 'c', data: cat(chBig, clientTail), expect: cat(inBig, clientTail), rewritten: [][2]int{{0, len(chBig)}}, rewrittenOut: len(inBig)},
+			{dir: 'b', data: serverFlight2, expect: serverFlight2},
+		}},
+		{"passthrough-fragmented-hello", keys, []step{
+			{dir: 'c', data: cat(plainFrag, clientTailNoAppFirst), expect: cat(plainFrag, clientTailNoAppFirst), rewritten: [][2]int{{0, len(plainFrag)}}, rewrittenOut: len(plainFrag)},
+			{dir: 'b', data: serverFlight, expect: serverFlight},
+		}},
 		{"accepted", keys, []step{
 			{dir: 'c', data: cat(ch1, clientTail), expect: cat(in1, clientTail), rewritten: [][2]int{{0, len(ch1)}}},
 			{dir: 'b', data: serverFlight, expect: serverFlight},
@@ -177,6 +203,9 @@ func (s *step) mapOut(off int) (n int, partialRewritten bool) {
 			// find the output length of this rewritten record: expect has a record at the mapped start
 			start := rw[0] + delta
 			outLen := 5 + (int(s.expect[start+3])<<8 | int(s.expect[start+4]))
+			if s.rewrittenOut > 0 {
+				outLen = s.rewrittenOut
+			}
 			delta += outLen - (rw[1] - rw[0])
 		}
 	}
@@ -192,8 +221,15 @@ func (s *step) versionPositions() map[int]bool {
 		if start+5 > len(s.expect) {
 			break
 		}
-		m[start+1], m[start+2] = true, true
 		outLen := 5 + (int(s.expect[start+3])<<8 | int(s.expect[start+4]))
+		if s.rewrittenOut > 0 {
+			outLen = s.rewrittenOut
+		}
+		// the record-layer version of every record of the rewritten hello may be normalised
+		for p := start; p+5 <= start+outLen; {
+			m[p+1], m[p+2] = true, true
+			p += 5 + (int(s.expect[p+3])<<8 | int(s.expect[p+4]))
+		}
 		delta += outLen - (rw[1] - rw[0])
 	}
 	return m
@@ -332,8 +368,11 @@ func execute(sc scenario, p perturbation, sink violationSink) (outcome string) {
 			if si == 0 {
 				feedFirst := st.data
 				if p.FeedSplitStep == 0 && p.FeedSplitAt > 0 {
-					// the first record must be complete for NewConn (it blocks otherwise): split only after it
+					// the first hello (all its records) must be complete for NewConn (it blocks otherwise): split only after it
 					first := 5 + (int(st.data[3])<<8 | int(st.data[4]))
+					if len(st.rewritten) > 0 {
+						first = st.rewritten[0][1]
+					}
 					if p.FeedSplitAt < first {
 						return "skip"
 					}
@@ -343,6 +382,9 @@ func execute(sc scenario, p perturbation, sink violationSink) (outcome string) {
 				var err error
 				conn, err = ech.NewConn(ctxBG, t, ech.WithKeys(sc.keys))
 				firstLen := 5 + (int(st.data[3])<<8 | int(st.data[4]))
+				if len(st.rewritten) > 0 {
+					firstLen = st.rewritten[0][1]
+				}
 				if ended && limit < firstLen {
 					if err == nil {
 						sink("newconn-accepts-truncated-hello", "NewConn succeeded although the transport ended inside the first record")
